@@ -1,6 +1,7 @@
 """Judging one program's *default* inference against R1 (shared by C01/C02 and, through the
 attribution rule of DESIGN.md 2.8, by the differential properties)."""
 import copy
+import json
 import re
 
 from .gen.programs import program_text
@@ -132,6 +133,41 @@ def shrink_candidates(prog):
             yield p
 
 
+def strong_candidates(prog):
+    """shrink_candidates plus two meaning-changing reductions used where one root cause would
+    otherwise yield many minimal programs: merging two predicates of equal arity (the later-named
+    one is renamed to the earlier one) and swapping two adjacent clauses when that makes the program
+    text smaller (terminates: the text decreases lexicographically)."""
+    for p in shrink_candidates(prog):
+        yield p
+    sigs = []
+    for cl in prog["clauses"]:
+        for _, h in cl["heads"]:
+            sig = (h[0], len(h[1]))
+            if sig not in sigs:
+                sigs.append(sig)
+    for i in range(len(sigs)):
+        for j in range(i + 1, len(sigs)):
+            if sigs[i][1] != sigs[j][1]:
+                continue
+            a, b = sigs[i][0], sigs[j][0]
+            p = json.loads(json.dumps(prog).replace('["%s", [' % b, '["%s", [' % a))
+            # drop duplicate queries
+            qs = []
+            for q in p["queries"]:
+                if q not in qs:
+                    qs.append(q)
+            p["queries"] = qs
+            if p != prog:
+                yield p
+    cls = prog["clauses"]
+    for i in range(len(cls) - 1):
+        p = copy.deepcopy(prog)
+        p["clauses"][i], p["clauses"][i + 1] = p["clauses"][i + 1], p["clauses"][i]
+        if program_text(p) < program_text(prog):
+            yield p
+
+
 def closed(prog):
     heads = set()
     for cl in prog["clauses"]:
@@ -249,11 +285,11 @@ def canonical_variants(prog):
             yield q
 
 
-def minimise(prog, fails, limit=150):
+def minimise(prog, fails, limit=150, strong=False):
     """deterministic shrink followed by canonical renaming (kept only if the symptom persists)"""
     from .core import shrink
 
-    small = shrink(prog, shrink_candidates, fails, limit=limit)
+    small = shrink(prog, strong_candidates if strong else shrink_candidates, fails, limit=limit)
     for cand in canonical_variants(small):
         if cand == small:
             return small
